@@ -9,31 +9,34 @@ open ScalarFns
 section generic
 variable {α : Type} [Add α] [Sub α] [Mul α] [Div α] [Neg α] [ScalarFns α] [HasErf α]
 
-/-- part `k` of the list `ss` when the loop has already advanced to `(curDim, curParam)` -/
-def partLLFrom (nIds : Nat) (params : Nat → α) (obs : Nat → Nat → α) (curDim curParam : Nat)
+/-- part `k` of the list `ss` when the loop has already advanced to `(curDim, curParam, curCov)` -/
+def partLLFrom (nIds : Nat) (params : Nat → α) (obs cov : Nat → Nat → α) (curDim curParam curCov : Nat)
     (ss : List SubModel) (k : Nat) : Score α :=
   match ss[k]? with
   | none => Score.zero
-  | some s => popLL s.kind nIds s.nDim (sliceTh params (curParam + paramOff nIds ss k) s.nDim)
+  | some s => popLL s.kind nIds s.nDim
+      (pcSubTh nIds s params (curParam + paramOff nIds ss k) cov (curCov + pcCovOff ss k))
       (sliceObs obs (curDim + pcDimOff ss k))
 
-theorem composedLLGo_eq (nIds : Nat) (params : Nat → α) (obs : Nat → Nat → α) (ss : List SubModel) :
-    ∀ (curDim curParam : Nat) (acc : Score α),
-      composedLLGo nIds params obs ss curDim curParam acc
+theorem composedLLGo_eq (nIds : Nat) (params : Nat → α) (obs cov : Nat → Nat → α)
+    (ss : List SubModel) :
+    ∀ (curDim curParam curCov : Nat) (acc : Score α),
+      composedLLGo nIds params obs cov ss curDim curParam curCov acc
         = (List.range ss.length).foldl
-            (fun a k => Score.add a (partLLFrom nIds params obs curDim curParam ss k)) acc := by
+            (fun a k => Score.add a (partLLFrom nIds params obs cov curDim curParam curCov ss k)) acc := by
   induction ss with
-  | nil => intro _ _ _; simp [composedLLGo]
+  | nil => intro _ _ _ _; simp [composedLLGo]
   | cons s ss ih =>
-    intro curDim curParam acc
+    intro curDim curParam curCov acc
     rw [composedLLGo, ih, List.length_cons, List.range_succ_eq_map, List.foldl_cons, List.foldl_map]
-    have h0 : partLLFrom nIds params obs curDim curParam (s :: ss) 0
-        = popLL s.kind nIds s.nDim (sliceTh params curParam s.nDim) (sliceObs obs curDim) := by
-      simp [partLLFrom, paramOff, pcDimOff]
-    have hk : ∀ k, partLLFrom nIds params obs curDim curParam (s :: ss) (k + 1)
-        = partLLFrom nIds params obs (curDim + s.nDim) (curParam + s.kind.nParams nIds s.nDim) ss k := by
+    have h0 : partLLFrom nIds params obs cov curDim curParam curCov (s :: ss) 0
+        = popLL s.kind nIds s.nDim (pcSubTh nIds s params curParam cov curCov) (sliceObs obs curDim) := by
+      simp [partLLFrom, paramOff, pcDimOff, pcCovOff]
+    have hk : ∀ k, partLLFrom nIds params obs cov curDim curParam curCov (s :: ss) (k + 1)
+        = partLLFrom nIds params obs cov (curDim + s.nDim) (curParam + s.nTop nIds)
+            (curCov + s.nCov) ss k := by
       intro k
-      simp [partLLFrom, paramOff, pcDimOff, Nat.add_assoc]
+      simp [partLLFrom, paramOff, pcDimOff, pcCovOff, Nat.add_assoc]
     rw [h0]
     simp only [hk]
 
@@ -108,74 +111,85 @@ theorem foldl_add_hits_negInf (n : Nat) (p : Nat → Score ℝ) (hu : ∀ k, k <
 section generic2
 variable {α : Type} [Add α] [Sub α] [Mul α] [Div α] [Neg α] [ScalarFns α] [HasErf α]
 
-
 /-- sub-model `k` with its sensitivities evaluated on its own block (offsets = sizes of the parts
-    before it), seen from a loop that has advanced to `(curDim, curParam)` -/
-def partSensFrom (nIds : Nat) (params : Nat → α) (obs : Nat → Nat → α) (up : Option (Nat → Nat → α))
-    (curDim curParam : Nat) (ss : List SubModel) (k : Nat) : Option (SubModel × SensOut α) :=
+    before it) and its own covariate columns, seen from a loop that has advanced to
+    `(curDim, curParam, curCov)` -/
+def partSensFrom (nIds : Nat) (params : Nat → α) (obs cov : Nat → Nat → α)
+    (up : Option (Nat → Nat → α)) (curDim curParam curCov : Nat) (ss : List SubModel) (k : Nat) :
+    Option (SubModel × SensOut α × (Nat → Nat → α)) :=
   ss[k]?.map (fun s => (s, popSens s.kind nIds s.nDim
-    (sliceTh params (curParam + paramOff nIds ss k) s.nDim) (sliceObs obs (curDim + pcDimOff ss k))
-    (sliceUp up (curDim + pcDimOff ss k))))
+    (pcSubTh nIds s params (curParam + paramOff nIds ss k) cov (curCov + pcCovOff ss k))
+    (sliceObs obs (curDim + pcDimOff ss k)) (sliceUp up (curDim + pcDimOff ss k)),
+    sliceCov cov (curCov + pcCovOff ss k)))
 
-def partSens (nIds : Nat) (subs : List SubModel) (params : Nat → α) (obs : Nat → Nat → α)
-    (up : Option (Nat → Nat → α)) (k : Nat) : Option (SubModel × SensOut α) :=
-  partSensFrom nIds params obs up 0 0 subs k
+def partSens (nIds : Nat) (subs : List SubModel) (params : Nat → α) (obs cov : Nat → Nat → α)
+    (up : Option (Nat → Nat → α)) (k : Nat) : Option (SubModel × SensOut α × (Nat → Nat → α)) :=
+  partSensFrom nIds params obs cov up 0 0 0 subs k
 
 /-- what one part contributes to the separate form -/
-def sepStep (nIds : Nat) (acc : CompSens α) : Option (SubModel × SensOut α) → CompSens α
+def sepStep (nIds : Nat) (acc : CompSens α) :
+    Option (SubModel × SensOut α × (Nat → Nat → α)) → CompSens α
   | none => acc
-  | some (s, so) =>
+  | some (s, so, cv) =>
     ⟨Score.add acc.score so.score, acc.defined && so.defined,
      acc.cols ++ (List.range s.nDim).map (fun d => fun i => so.dpsi i d),
-     acc.dtheta ++ shapeFlattened s.kind nIds s.nDim so⟩
+     acc.dtheta ++ subFlattened nIds s so cv⟩
 
 /-- what one part contributes to the hierarchical form: its bottom block (if it has one) to the
     individual-level columns, the rest of its `reduce` vector to the top block -/
-def redStep (nIds : Nat) (acc : CompRed α) : Option (SubModel × SensOut α) → CompRed α
+def redStep (nIds : Nat) (acc : CompRed α) :
+    Option (SubModel × SensOut α × (Nat → Nat → α)) → CompRed α
   | none => acc
-  | some (s, so) =>
-    let ds := shapeReduce s.kind nIds s.nDim so
-    let nb := (s.kind.nHierParams nIds s.nDim).1
+  | some (s, so, cv) =>
+    let ds := subReduce nIds s so cv
+    let nb := (s.nHierP nIds).1
     ⟨Score.add acc.score so.score, acc.defined && so.defined,
      acc.hcols ++ (if nb > 0 then (List.range s.nDim).map (fun d => fun i => ds.getD (i * s.nDim + d) zero)
        else []),
      acc.tops ++ ds.drop nb⟩
 
-theorem partSensFrom_succ (nIds : Nat) (params : Nat → α) (obs : Nat → Nat → α)
-    (up : Option (Nat → Nat → α)) (curDim curParam : Nat) (s : SubModel) (ss : List SubModel) (k : Nat) :
-    partSensFrom nIds params obs up curDim curParam (s :: ss) (k + 1)
-      = partSensFrom nIds params obs up (curDim + s.nDim) (curParam + s.kind.nParams nIds s.nDim) ss k := by
-  simp [partSensFrom, paramOff, pcDimOff, Nat.add_assoc]
+theorem partSensFrom_succ (nIds : Nat) (params : Nat → α) (obs cov : Nat → Nat → α)
+    (up : Option (Nat → Nat → α)) (curDim curParam curCov : Nat) (s : SubModel) (ss : List SubModel)
+    (k : Nat) :
+    partSensFrom nIds params obs cov up curDim curParam curCov (s :: ss) (k + 1)
+      = partSensFrom nIds params obs cov up (curDim + s.nDim) (curParam + s.nTop nIds)
+          (curCov + s.nCov) ss k := by
+  simp [partSensFrom, paramOff, pcDimOff, pcCovOff, Nat.add_assoc]
 
-theorem composedSensGo_eq (nIds : Nat) (params : Nat → α) (obs : Nat → Nat → α)
+theorem partSensFrom_zero (nIds : Nat) (params : Nat → α) (obs cov : Nat → Nat → α)
+    (up : Option (Nat → Nat → α)) (curDim curParam curCov : Nat) (s : SubModel) (ss : List SubModel) :
+    partSensFrom nIds params obs cov up curDim curParam curCov (s :: ss) 0
+      = some (s, popSens s.kind nIds s.nDim (pcSubTh nIds s params curParam cov curCov)
+          (sliceObs obs curDim) (sliceUp up curDim), sliceCov cov curCov) := by
+  simp [partSensFrom, paramOff, pcDimOff, pcCovOff]
+
+theorem composedSensGo_eq (nIds : Nat) (params : Nat → α) (obs cov : Nat → Nat → α)
     (up : Option (Nat → Nat → α)) (ss : List SubModel) :
-    ∀ (curDim curParam : Nat) (acc : CompSens α),
-      composedSensGo nIds params obs up ss curDim curParam acc
+    ∀ (curDim curParam curCov : Nat) (acc : CompSens α),
+      composedSensGo nIds params obs cov up ss curDim curParam curCov acc
         = (List.range ss.length).foldl
-            (fun a k => sepStep nIds a (partSensFrom nIds params obs up curDim curParam ss k)) acc := by
+            (fun a k => sepStep nIds a
+              (partSensFrom nIds params obs cov up curDim curParam curCov ss k)) acc := by
   induction ss with
-  | nil => intro _ _ _; simp [composedSensGo]
+  | nil => intro _ _ _ _; simp [composedSensGo]
   | cons s ss ih =>
-    intro curDim curParam acc
+    intro curDim curParam curCov acc
     rw [composedSensGo, ih, List.length_cons, List.range_succ_eq_map, List.foldl_cons, List.foldl_map]
-    simp only [partSensFrom_succ]
-    congr 1
+    simp only [partSensFrom_succ, partSensFrom_zero, sepStep]
 
-theorem composedRedGo_eq (nIds : Nat) (params : Nat → α) (obs : Nat → Nat → α)
+theorem composedRedGo_eq (nIds : Nat) (params : Nat → α) (obs cov : Nat → Nat → α)
     (up : Option (Nat → Nat → α)) (ss : List SubModel) :
-    ∀ (curDim curTop : Nat) (acc : CompRed α),
-      composedRedGo nIds params obs up ss curDim curTop acc
+    ∀ (curDim curTop curCov : Nat) (acc : CompRed α),
+      composedRedGo nIds params obs cov up ss curDim curTop curCov acc
         = (List.range ss.length).foldl
-            (fun a k => redStep nIds a (partSensFrom nIds params obs up curDim curTop ss k)) acc := by
+            (fun a k => redStep nIds a
+              (partSensFrom nIds params obs cov up curDim curTop curCov ss k)) acc := by
   induction ss with
-  | nil => intro _ _ _; simp [composedRedGo]
+  | nil => intro _ _ _ _; simp [composedRedGo]
   | cons s ss ih =>
-    intro curDim curTop acc
+    intro curDim curTop curCov acc
     rw [composedRedGo, ih, List.length_cons, List.range_succ_eq_map, List.foldl_cons, List.foldl_map]
-    simp only [partSensFrom_succ]
-    congr 1
-
-
+    simp only [partSensFrom_succ, partSensFrom_zero, redStep, SubModel.nHierP]
 
 theorem shape_lengths (k : Kind) (nIds nDim : Nat) (s : SensOut α) :
     (shapeReduce k nIds nDim s).length
@@ -188,6 +202,37 @@ theorem shape_lengths (k : Kind) (nIds nDim : Nat) (s : SensOut α) :
   · cases k <;>
       simp [shapeFlattened, flatTheta, Kind.nParams, Kind.perDim] <;> omega
 
+/-- `hstack(dpop, dcov)` has `n_pop + n_selected · n_cov` entries -/
+theorem covSens_length (c : CovCfg) (nIds : Nat) (g : Nat → Nat → Nat → α) (cov : Nat → Nat → α) :
+    (covSens c nIds g cov).length = c.perDim * c.nDim + c.sel.length * c.nCov := by
+  unfold covSens
+  rw [List.length_append, length_flatMap_range, length_flatMap_range]
+
+/-- lengths of what a sub-model (bare or covariate-wrapped) hands to the composed model -/
+theorem sub_lengths (nIds : Nat) (s : SubModel) (so : SensOut α) (cv : Nat → Nat → α) :
+    (subReduce nIds s so cv).length = (s.nHierP nIds).1 + (s.nHierP nIds).2
+    ∧ (subFlattened nIds s so cv).length = s.nTop nIds := by
+  have hmul : s.sel.length * s.nCov = s.nCov * s.sel.length := Nat.mul_comm _ _
+  constructor
+  · unfold subReduce SubModel.nHierP SubModel.nTop SubModel.nPop
+    by_cases h0 : s.nCov = 0
+    · rw [if_pos h0, (shape_lengths s.kind nIds s.nDim so).1]
+      simp [Kind.nHierParams, Kind.nParams, h0]
+    · rw [if_neg h0]
+      by_cases hh : s.kind.hierarchical = true
+      · rw [if_pos hh]
+        simp only [List.length_append, covSens_length, SubModel.cfg, hh, if_true, hmul]
+        simp [flatPsi]
+      · rw [if_neg hh]
+        simp only [covSens_length, SubModel.cfg, hh, hmul]
+        simp
+  · unfold subFlattened SubModel.nTop SubModel.nPop
+    by_cases h0 : s.nCov = 0
+    · rw [if_pos h0, (shape_lengths s.kind nIds s.nDim so).2]
+      simp [Kind.nParams, h0]
+    · rw [if_neg h0, covSens_length]
+      simp [SubModel.cfg, hmul]
+
 theorem length_flatMap_cols (n : Nat) (cols : List (Nat → α)) :
     ((List.range n).flatMap (fun i => cols.map (fun c => c i))).length = n * cols.length := by
   induction n with
@@ -197,31 +242,32 @@ theorem length_flatMap_cols (n : Nat) (cols : List (Nat → α)) :
     simp
     ring
 
-theorem composedRedGo_length (nIds : Nat) (params : Nat → α) (obs : Nat → Nat → α)
+theorem composedRedGo_length (nIds : Nat) (params : Nat → α) (obs cov : Nat → Nat → α)
     (up : Option (Nat → Nat → α)) (ss : List SubModel) :
-    ∀ (curDim curTop : Nat) (acc : CompRed α),
-      nIds * (composedRedGo nIds params obs up ss curDim curTop acc).hcols.length
-        + (composedRedGo nIds params obs up ss curDim curTop acc).tops.length
+    ∀ (curDim curTop curCov : Nat) (acc : CompRed α),
+      nIds * (composedRedGo nIds params obs cov up ss curDim curTop curCov acc).hcols.length
+        + (composedRedGo nIds params obs cov up ss curDim curTop curCov acc).tops.length
       = nIds * acc.hcols.length + acc.tops.length
         + ((composedNHier nIds ss).1 + (composedNHier nIds ss).2) := by
   induction ss with
-  | nil => intro _ _ _; simp [composedRedGo, composedNHier]
+  | nil => intro _ _ _ _; simp [composedRedGo, composedNHier]
   | cons s ss ih =>
-    intro curDim curTop acc
+    intro curDim curTop curCov acc
     rw [composedRedGo, ih]
     simp only [composedNHier, List.length_append, List.length_drop]
-    have hl := (shape_lengths s.kind nIds s.nDim (popSens s.kind nIds s.nDim
-      (sliceTh params curTop s.nDim) (sliceObs obs curDim) (sliceUp up curDim))).1
+    have hl := (sub_lengths nIds s (popSens s.kind nIds s.nDim
+      (pcSubTh nIds s params curTop cov curCov) (sliceObs obs curDim) (sliceUp up curDim))
+      (sliceCov cov curCov)).1
     rw [hl]
-    have hnb : nIds * (if (s.kind.nHierParams nIds s.nDim).1 > 0
+    have hnb : nIds * (if (s.nHierP nIds).1 > 0
         then (List.range s.nDim).map (fun d => fun i =>
-          (shapeReduce s.kind nIds s.nDim (popSens s.kind nIds s.nDim (sliceTh params curTop s.nDim)
-            (sliceObs obs curDim) (sliceUp up curDim))).getD (i * s.nDim + d) zero)
-        else ([] : List (Nat → α))).length = (s.kind.nHierParams nIds s.nDim).1 := by
-      by_cases h : (s.kind.nHierParams nIds s.nDim).1 > 0
+          (subReduce nIds s (popSens s.kind nIds s.nDim (pcSubTh nIds s params curTop cov curCov)
+            (sliceObs obs curDim) (sliceUp up curDim)) (sliceCov cov curCov)).getD (i * s.nDim + d) zero)
+        else ([] : List (Nat → α))).length = (s.nHierP nIds).1 := by
+      by_cases h : (s.nHierP nIds).1 > 0
       · rw [if_pos h]
         simp only [List.length_map, List.length_range]
-        unfold Kind.nHierParams at h ⊢
+        unfold SubModel.nHierP at h ⊢
         by_cases hh : s.kind.hierarchical = true
         · simp [hh]
         · simp [hh] at h
@@ -231,21 +277,22 @@ theorem composedRedGo_length (nIds : Nat) (params : Nat → α) (obs : Nat → N
     rw [Nat.mul_add, hnb]
     omega
 
-theorem composedSensGo_length (nIds : Nat) (params : Nat → α) (obs : Nat → Nat → α)
+theorem composedSensGo_length (nIds : Nat) (params : Nat → α) (obs cov : Nat → Nat → α)
     (up : Option (Nat → Nat → α)) (ss : List SubModel) :
-    ∀ (curDim curParam : Nat) (acc : CompSens α),
-      (composedSensGo nIds params obs up ss curDim curParam acc).dtheta.length
+    ∀ (curDim curParam curCov : Nat) (acc : CompSens α),
+      (composedSensGo nIds params obs cov up ss curDim curParam curCov acc).dtheta.length
         = acc.dtheta.length + composedNParams nIds ss
-      ∧ (composedSensGo nIds params obs up ss curDim curParam acc).cols.length
+      ∧ (composedSensGo nIds params obs cov up ss curDim curParam curCov acc).cols.length
         = acc.cols.length + composedNDim ss := by
   induction ss with
-  | nil => intro _ _ _; simp [composedSensGo, composedNParams, composedNDim]
+  | nil => intro _ _ _ _; simp [composedSensGo, composedNParams, composedNDim]
   | cons s ss ih =>
-    intro curDim curParam acc
+    intro curDim curParam curCov acc
     rw [composedSensGo]
-    have hf := (shape_lengths s.kind nIds s.nDim (popSens s.kind nIds s.nDim
-      (sliceTh params curParam s.nDim) (sliceObs obs curDim) (sliceUp up curDim))).2
-    have hi := ih (curDim + s.nDim) (curParam + s.kind.nParams nIds s.nDim)
+    have hf := (sub_lengths nIds s (popSens s.kind nIds s.nDim
+      (pcSubTh nIds s params curParam cov curCov) (sliceObs obs curDim) (sliceUp up curDim))
+      (sliceCov cov curCov)).2
+    have hi := ih (curDim + s.nDim) (curParam + s.nTop nIds) (curCov + s.nCov)
     constructor
     · rw [(hi _).1]
       simp only [List.length_append, hf, composedNParams, List.map_cons, List.sum_cons]
@@ -254,7 +301,6 @@ theorem composedSensGo_length (nIds : Nat) (params : Nat → α) (obs : Nat → 
       simp only [List.length_append, List.length_map, List.length_range, composedNDim,
         List.map_cons, List.sum_cons]
       omega
-
 
 end generic2
 
